@@ -20,11 +20,11 @@ def unit_options(k, T, labels, segs=None):
     return opts
 
 
-def size_G(n, k, T, labels, sym=False, ks=None):
+def size_G(n, k, T, labels, sym=False, ks=None, segs=None):
     ks = ks or [k] * n
     tot = 1
     for kk in ks:
-        tot *= len(unit_options(kk, T, labels))
+        tot *= len(unit_options(kk, T, labels, [tuple(x) for x in segs] if segs else None))
     return tot - 1
 
 
